@@ -50,7 +50,8 @@ def ron_doc(order, label='Alpha'):
     """a Zerv RON document with the given precedence order (the rest fixed): what `--output-format zerv` prints"""
     po = '' if order is None else ', precedence_order: [%s]' % ', '.join(order)
     return ('(schema: (core: [var(Major), var(Minor), var(Patch)], extra_core: [var(Epoch), var(PreRelease), var(Post), var(Dev)], build: [var(BumpedBranch)]%s), '
-            'vars: (major: Some(1), minor: Some(2), patch: Some(3), pre_release: Some((label: %s, number: Some(1))), bumped_branch: Some("main")))' % (po, label))
+            'vars: (major: Some(1), minor: Some(2), patch: Some(18446744073709551615), epoch: Some(0), pre_release: Some((label: %s, number: Some(0))), post: Some(0), dev: Some(4294967296), distance: Some(0), dirty: Some(false), '
+            'bumped_branch: Some(" Feature/X "), bumped_commit_hash: Some("gDEADBEEF00 "), bumped_timestamp: Some(0), last_branch: Some(""), last_commit_hash: Some(" ABCdef"), last_timestamp: Some(7258118399), last_tag_version: Some("V1.2.3 ")))' % (po, label))
 
 
 def ron_string(cps):
